@@ -81,6 +81,16 @@ CHECKS.update({
    text="The cross product shape x route is finite and is enumerated completely both in the model and on the real code: for every shape (value/pointer x no/own EventTypeName on value/pointer receiver, plus the state package's messages by value and by pointer) the stored type must equal what EventType reports, SubscribeWithReplay[T] must deliver the persisted event exactly once, and typed upcasters from and to the type must be applied.",
    note="Trusted: TLC; one Go type per shape in the harness. Names that depend on the event's value (an envelope whose EventTypeName returns a field) have no single name per Go type and are outside this property's typed routes; the persisted name of such events is checked by C09.", ref="DESIGN.md 5/C15, 4.7"),
 })
+
+SNOTE="Trusted: TLC, the harness' projection of collection contents (All() and Get() per collection, entities mapped back to the model's value ids by deep equality), the real helper constructors as message builders."
+CHECKS.update({
+ "C18": dict(technique="TLA+ spec State.tla (Apply as an action, Fold as reference definition): exhaustive TLC over all message sequences up to MaxMsgs (MCState); random message logs through the real bus/store/materializer with the full projected state logged after every event, validated against StateTrace.tla",
+   text="MCState checks for every message sequence (two registered and one unregistered type, keys containing the separator, strict / non-strict) that the collections equal the fold of the log, that LastOffset is the last successfully applied offset and that resuming from it loses nothing; on the real code every applied event of random logs (built with the real helpers, memory and SQLite stores) is one trace line whose logged full state must equal the state the specification computes, and a second materializer fed in two sessions must end in the same state.",
+   note=SNOTE, ref="DESIGN.md 5/C18, 4.8"),
+ "C19": dict(technique="TLA+ spec State.tla (rejection = UNCHANGED) via StateTrace.tla for message logs with undecodable and ill-typed events; randomized round trips of rich entities through helpers, bus, the three stores and the materializer; randomized and mutated byte inputs to Apply",
+   text="The specification is the oracle for the state effect of every accepted message and for 'an error leaves every collection and LastOffset unchanged'. Round-trip fidelity over entity values, keys and option combinations and robustness against arbitrary bytes are covered by seeded random generation (projection flags validated by the trace specification), not by model checking.",
+   note=SNOTE+" Byte-level breadth is random generation (quick: 5000 fuzz inputs, 400 round trips).", ref="DESIGN.md 5/C19, 4.8"),
+})
 checks=[]
 for p in props:
     c=CHECKS.get(p['id'])
